@@ -8,13 +8,13 @@ F = Fraction
 N = 'null'
 
 
-def _pt(eta=F(1, 2), with_current=True, worm_reverse=False):
+def _pt(eta=F(1, 2), with_current=True, i0=0.25):
     import_repo()
     from gearpy.mechanical_objects import DCMotor, SpurGear
     from gearpy.units import AngularSpeed, Torque, Current, InertiaMoment
     from gearpy.utils import add_fixed_joint, add_gear_mating
     from gearpy.powertrain import Powertrain
-    kw = dict(no_load_electric_current=Current(0.25, 'A'), maximum_electric_current=Current(2, 'A')) if with_current else {}
+    kw = dict(no_load_electric_current=Current(i0, 'A'), maximum_electric_current=Current(2, 'A')) if with_current else {}
     motor = DCMotor('m', InertiaMoment(1, 'kgm^2'), AngularSpeed(16, 'rad/s'), Torque(2, 'Nm'), **kw)
     g1 = SpurGear('g1', 10, InertiaMoment(1, 'kgm^2'))
     g2 = SpurGear('g2', 20, InertiaMoment(1, 'kgm^2'))
@@ -31,13 +31,14 @@ def events():
     from gearpy.units import Time, TimeInterval, AngularPosition, Angle, Torque, AngularSpeed, Current
     evs = []
     n = [0]
-    motor_desc = {'Tmax': '2', 'w0': '16', 'i0': '1/4', 'imax': '2'}
+    motor_desc0 = {'Tmax': '2', 'w0': '16', 'i0': '1/4', 'imax': '2'}
+    motor_desc = motor_desc0
     step = F(1, 8)                      # one grid step; every number below is a dyadic rational: exact in binary
 
     def add(rule_desc, rule, where, **state):
         n[0] += 1
         r, err = outcome(rule.apply)
-        e = {'id': f'rb{n[0]}', 'rule': rule_desc, 'where': where, 'motor': motor_desc, 't': '0', 'theta': '0', 'spd': '0',
+        e = {'id': f'rb{n[0]}', 'rule': rule_desc, 'where': where, 'motor': state.pop('motor', motor_desc0), 't': '0', 'theta': '0', 'spd': '0',
              'TlMotor': N, 'TlRef': '0', 'effProd': '1/2',
              'out': {'ret': N if (r is None or err) else rstr(float(r) if not isinstance(r, int) else r), 'raised': err or ''}}
         e.update({k: rstr(v) if not isinstance(v, str) else v for k, v in state.items()})
@@ -67,15 +68,17 @@ def events():
                 add(dict(base, type='reach', el=3, target=rstr(target), brake=rstr(brake)), rule, where, theta=th,
                     TlMotor=N if load is None else rstr(load))
     # ---- StartProportionalToAngularPosition: applies while theta <= target
-    for load, pmin in ((F(1, 2), None), (F(0), F(1, 4)), (F(0), None)):
+    # (with a no-load current of exactly 0 and no load the candidate minimum duty cycle is 0: the pmin parameter is used AS IS)
+    for load, pmin, i0 in ((F(1, 2), None, F(1, 4)), (F(0), F(1, 4), F(1, 4)), (F(0), None, F(1, 4)), (F(0), F(1, 4), F(0)), (F(0), None, F(0)), (F(1, 2), F(1, 4), F(0))):
         target = F(4)
         for where, th in (('inside', F(1)), ('on_target', target), ('beyond', target + step), ('at_zero', F(0))):
-            pt, motor, g1, g2 = _pt()
+            pt, motor, g1, g2 = _pt(i0=float(i0))
+            motor_desc = dict(motor_desc0, i0=rstr(i0))
             pt.update_time(Time(0, 'sec'))
             g2.angular_position = AngularPosition(float(th), 'rad')
             motor.load_torque = Torque(float(load), 'Nm')
             rule = StartProportionalToAngularPosition(AbsoluteRotaryEncoder(g2), pt, AngularPosition(float(target), 'rad'), 2, None if pmin is None else float(pmin))
-            add(dict(base, type='startprop', el=3, target=rstr(target), mult='2', pmin=N if pmin is None else rstr(pmin)), rule, where, theta=th, TlRef=rstr(load))
+            add(dict(base, type='startprop', el=3, target=rstr(target), mult='2', pmin=N if pmin is None else rstr(pmin)), rule, where, theta=th, TlRef=rstr(load), motor=motor_desc)
     # ---- StartLimitCurrent: applies while theta <= target; value through its quadratic
     for where, th in (('inside', F(1)), ('on_target', F(4)), ('beyond', F(4) + step)):
         for spd in (F(0), F(4), F(-8), F(20)):
